@@ -3,4 +3,4 @@ export GOTOOLCHAIN=local GOFLAGS=-mod=mod GOPROXY=off GOSUMDB=off CGO_ENABLED=1
 G=/root/go/pkg/mod/golang.org/toolchain@v0.0.1-go1.26.4.linux-amd64/bin/go
 if [ ! -x "$G" ]; then G=$(command -v go1.26.8 || echo /opt/veriftools/go1.26.8/bin/go); fi
 export G
-export VERIF_ROOT=/verif
+export VERIF_ROOT=${VERIF_ROOT:-/verif}
